@@ -7,12 +7,26 @@ VARIABLE hist
 PD == (1 :> <<65, 0>>) @@ (2 :> <<65, 1>>) @@ (3 :> <<193, 0>>) @@ (4 :> <<67, 255>>)
 Obs(d) == [root |-> Root(d), leaves |-> Leaves(d)]
 UpdJson(upd) == {<<p, upd[p][1], {<<k, upd[p][2][k]>> : k \in {x \in Keys : upd[p][1] = "r" \/ upd[p][2][x] # Untouched}}>> : p \in {q \in Parts : upd[q][1] # "n"}}
-RandUpd == [p \in Parts |-> IF RandomElement(1..3) = 1 THEN NoUpd ELSE RandomElement(PartUpdates)]
-SInit == /\ db = [p \in Parts |-> IF RandomElement(1..2) = 1 THEN [k \in Keys |-> None]
-                                  ELSE [k \in Keys |-> RandomElement(Vals \cup {None})]]
-         /\ hist = <<[a |-> "init", upd |-> {}, obs |-> Obs(db)]>>
+\* Random draws must be (a) re-drawn at every step: a zero-arity definition containing RandomElement is
+\* evaluated once and cached by TLC, hence the dummy parameter; and (b) evaluated exactly once per use:
+\* sequences are built eagerly with Append and bound through singleton sets (\E x \in {e}).
+NParts == Cardinality(Parts)
+PartSeq == SortedSeq(Parts)
+RECURSIVE RandUpdSeq(_, _)
+RandUpdSeq(n, tag) == IF n = 0 THEN <<>>
+                      ELSE LET rest == RandUpdSeq(n - 1, tag)
+                           IN Append(rest, IF RandomElement(1..3) = 1 THEN NoUpd ELSE RandomElement(PartUpdates))
+RECURSIVE RandDbSeq(_, _)
+RandDbSeq(n, tag) == IF n = 0 THEN <<>>
+                     ELSE LET rest == RandDbSeq(n - 1, tag)
+                          IN Append(rest, IF RandomElement(1..3) = 1 THEN [k \in Keys |-> None]
+                                          ELSE RandomElement([Keys -> Vals \cup {None}]))
+Idx(p) == CHOOSE i \in 1..NParts : PartSeq[i] = p
+SInit == \E tag \in 1..48 : \E s \in {RandDbSeq(NParts, tag)} :
+           /\ db = [p \in Parts |-> s[Idx(p)]]
+           /\ hist = <<[a |-> "init", upd |-> {}, obs |-> Obs([p \in Parts |-> s[Idx(p)]])]>>
 SNext == /\ Len(hist) <= K
-         /\ \E upd \in {RandUpd} :   \* bound once (a LET definition may be re-evaluated per use)
+         /\ \E s \in {RandUpdSeq(NParts, Len(hist))} : \E upd \in {[p \in Parts |-> s[Idx(p)]]} :
               /\ Commit(upd)
               /\ hist' = Append(hist, [a |-> "commit", upd |-> UpdJson(upd), obs |-> Obs(Apply(db, upd))])
 SSpec == SInit /\ [][SNext]_<<db, hist>>
